@@ -27,7 +27,9 @@ class AnalysisError(Exception):
 
 
 def norm_ws(s: str) -> str:
-    return re.sub(r'\s+', ' ', s).strip()
+    s = re.sub(r'\s+', ' ', s).strip()
+    # keep reports printable (grammar regexes contain control characters such as \x00)
+    return ''.join(c if c.isprintable() else c.encode('unicode_escape').decode() for c in s)
 
 
 @dataclass
